@@ -35,12 +35,18 @@ def plan(tier, seed):
     return [{'seed': seed * 1000003 + i} for i in range(N[tier])] + [{'kind': 'pytest-under-contracts', 'seed': 0}]
 
 
+class StepBudget(Exception):
+    pass
+
+
 class Steps:
-    """Counts get_related() expansions (the unit of work of closure/relation_paths)."""
+    """Counts get_related() expansions (the unit of work of closure/relation_paths); a call that needs more than
+    ``cap`` expansions on these tiny graphs is cut off (termination decided as bounded progress)."""
 
     def __init__(self):
         import wn
         self.n = 0
+        self.cap = 100000
         self.orig = {}
         for cls in (wn.Synset, wn.Sense):
             self.orig[cls] = cls.get_related
@@ -51,6 +57,8 @@ class Steps:
 
         def get_related(self_, *a):
             mon.n += 1
+            if mon.n > mon.cap:
+                raise StepBudget(f'more than {mon.cap} get_related() expansions in one call')
             return f(self_, *a)
         return get_related
 
@@ -208,18 +216,24 @@ def check_entities(rec, w, view, steps, r, label):
                 budget = (len(want_reach) + 1) * 3 + 5
                 steps.n = 0
                 got_c = []
-                for y in x.closure(*T):
-                    got_c.append(_k(y))
-                    if len(got_c) > len(want_reach) + 50 or steps.n > budget * 20:
-                        rec.violation('closure-runaway', f'{label}: {key}.closure{T} yielded {len(got_c)} items / {steps.n} expansions '
-                                      f'for {len(want_reach)} reachable entities')
-                        break
+                try:
+                    for y in x.closure(*T):
+                        got_c.append(_k(y))
+                        if len(got_c) > len(want_reach) + 50 or steps.n > budget * 20:
+                            rec.violation('closure-runaway', f'{label}: {key}.closure{T} yielded {len(got_c)} items / {steps.n} expansions '
+                                          f'for {len(want_reach)} reachable entities')
+                            break
+                except StepBudget as exc:
+                    rec.violation('closure-runaway', f'{label}: {key}.closure{T}: {exc}')
+                    continue
                 rec.event('closure.compared')
                 rec.event('steps.closure', steps.n)
                 d = diff(SetOf(want_reach), got_c)
                 if d:
                     rec.violation(f'closure:{kind}', f'{label}: {key}.closure{T}: ' + fmt(d))
-                elif steps.n > len(want_reach) + 1:
+                elif steps.n > 50 * (len(want_reach) + 1):
+                    # bounded progress, with a wide margin: how often an implementation expands a node is its own business,
+                    # running away is not
                     rec.violation('closure-step-budget', f'{label}: {key}.closure{T}: {steps.n} expansions for {len(want_reach)} reachable entities')
                 # relation_paths
                 want_paths, prefixes = simple_paths(view, key, kind, T)
@@ -229,12 +243,16 @@ def check_entities(rec, w, view, steps, r, label):
                 steps.n = 0
                 got_p = []
                 bad = False
-                for path in x.relation_paths(*T):
-                    got_p.append([_k(y) for y in path])
-                    if len(got_p) > len(want_paths) + 20:
-                        rec.violation('paths-runaway', f'{label}: {key}.relation_paths{T} yields more than {len(want_paths)} paths')
-                        bad = True
-                        break
+                try:
+                    for path in x.relation_paths(*T):
+                        got_p.append([_k(y) for y in path])
+                        if len(got_p) > len(want_paths) + 20:
+                            rec.violation('paths-runaway', f'{label}: {key}.relation_paths{T} yields more than {len(want_paths)} paths')
+                            bad = True
+                            break
+                except StepBudget as exc:
+                    rec.violation('paths-runaway', f'{label}: {key}.relation_paths{T}: {exc}')
+                    bad = True
                 rec.event('paths.compared')
                 rec.event('steps.paths', steps.n)
                 if bad:
@@ -246,7 +264,7 @@ def check_entities(rec, w, view, steps, r, label):
                 d = diff(Bag(want_paths), got_p)
                 if d:
                     rec.violation(f'relation_paths:{kind}', f'{label}: {key}.relation_paths{T}: ' + fmt(d))
-                elif steps.n > prefixes + 1:
+                elif steps.n > 50 * (prefixes + 1):
                     rec.violation('paths-step-budget', f'{label}: {key}.relation_paths{T}: {steps.n} expansions for {prefixes} path prefixes')
             if kind == 'synset':
                 for meth, T in (('hypernyms', ('hypernym', 'instance_hypernym')), ('hyponyms', ('hyponym', 'instance_hyponym')),
